@@ -4550,6 +4550,7 @@ class Segment(TimedObject):
     """
 
     def __init__(self, id, to, await_to, force_seq=False, type="default", info=""):
+        super().__init__()
         self.id = id
         self.to = to
         self.await_to = await_to
